@@ -275,6 +275,23 @@ class Model:
                     rec(it["items"], mod + [it["name"]], t)
 
         rec(tree["items"], file_mod(rel), False)
+        # nested fn items (fn declared inside a function body) are functions too
+        nested = []
+        for fi in out:
+            if fi.body is None:
+                continue
+            for n in walk(fi.body):
+                if n["k"] == "ItemStmt" and n["item"]["k"] == "Fn":
+                    it = n["item"]
+                    nf = FnInfo(it["name"], rel, fi.mod + ([fi.impl] if fi.impl else []) + [fi.name], None, None, it, fi.test)
+                    nested.append(nf)
+                elif n["k"] == "ItemStmt" and n["item"]["k"] == "Impl":
+                    it = n["item"]
+                    base = re.sub(r"<.*", "", it["self_ty"]).split("::")[-1].lstrip("&")
+                    for sub in it["items"]:
+                        if sub["k"] == "Fn":
+                            nested.append(FnInfo(sub["name"], rel, fi.mod + ([fi.impl] if fi.impl else []) + [fi.name], base, it.get("trait"), sub, fi.test))
+        out.extend(nested)
         self._fns[rel] = out
         return out
 
